@@ -20,6 +20,10 @@ StackMinBlocks == 6            \* a source is stacked only with >= 6 blocks, no 
 \* The generator emits stored values of length switch - 1, switch, switch + 1 (2^28 = 256 MiB is not exercised).
 VintLen(n) == IF n < 2 ^ 7 THEN 1 ELSE IF n < 2 ^ 14 THEN 2 ELSE IF n < 2 ^ 21 THEN 3 ELSE IF n < 2 ^ 28 THEN 4 ELSE 5
 VintSwitches == {2 ^ 7, 2 ^ 14, 2 ^ 21}
+\* A stored document is, per field, the SEQUENCE of its values in the order added, however the values of the
+\* fields were interleaved.  Grouping the (field, value) pairs by field must be stable; Rust's unstable sort is
+\* stable in effect for short inputs (here up to 32 pairs): documents around and above that are generated.
+ManyValuesSmallSort == 32
 
 -----------------------------------------------------------------------------
 (* Block cut rule (StoreWriter::check_flush_block): after a document was appended, the block  *)
